@@ -8,17 +8,17 @@ for d in sorted(glob.glob('/verif/seeded/C*-*'), key=lambda x: (x.split('/')[-1]
     m = json.load(open(d + '/meta.json'))
     name = d.split('/')[-1]
     n = int(name.split('-')[1])
-    rnd = "1" if n <= 2 else ("2" if n <= 4 else "3")
+    rnd = "1" if n <= 2 else ("2" if n <= 4 else ("3" if n <= 6 else "4"))
     summ = (m.get('summary') or '').replace('\n', ' ').replace('|', '/')[:140]
     det = m.get('detected_by_quick') or {}
     fv = m.get('first_violation') or {}
     first = next(iter(fv.values()), '')
     kind = first.replace('detail:', '').strip().split(':')[0][:44].replace('|', '/')
-    caught = ', '.join(k for k, v in det.items() if v == 'VIOLATION') or 'NOT CAUGHT'
+    caught = ', '.join(k for k, v in det.items() if v == 'VIOLATION') or ('not reported (outside the property as stated, see meta.json)' if m.get('verdict_note') else 'NOT CAUGHT')
     rows.append(f"| {name} | {rnd} | {summ} | {caught} | {kind} |")
     metas.append((name, caught))
 table = "\n".join([BEGIN,
-                   f"{len(rows)} seeded changes; {sum(1 for _, c in metas if c != 'NOT CAUGHT')} reported as `VIOLATION` (exit 1, counterexample replayed natively) by the quick check of their property on a scratch worktree of /repo HEAD.",
+                   f"{len(rows)} seeded changes; {sum(1 for _, c in metas if not c.lower().startswith('not'))} reported as `VIOLATION` (exit 1, counterexample replayed natively) by the quick check of their property on a scratch worktree of /repo HEAD.",
                    "", "| change | round | what it does | caught by (quick) | first violation kind |", "|---|---|---|---|---|"] + rows + [END])
 p = '/verif/DESIGN.md'
 s = open(p).read()
